@@ -225,3 +225,28 @@ def _ip_parse_value_contracts():
 
 
 CONTRACTS += _ip_parse_value_contracts()
+
+
+def sequence_config_wiring(tier, seed):
+    """Closed (evaluated on the real package; closed/sequence_config_wiring.py): the IP / GUID extractors of every registered
+    culture compile exactly the resource constants whose language the obligations above analyse, in the order IPv4, IPv6."""
+    import json
+    import os
+    import subprocess
+    VERIF = os.path.dirname(os.path.dirname(os.path.abspath(__file__)))
+    name = 'wiring/extractors-compile-the-analysed-patterns'
+    p = subprocess.run(['/venv/bin/python', os.path.join(VERIF, 'closed', 'sequence_config_wiring.py')], capture_output=True, text=True, timeout=300)
+    try:
+        r = json.loads(p.stdout)
+    except Exception:
+        return [dict(name=name, kind='closed', verdict='unknown', detail=(p.stdout + p.stderr)[-500:])]
+    if r['checked'] == 0:
+        return [dict(name=name, kind='closed', verdict='unknown', detail='no configuration class found')]
+    if r['bad']:
+        return [dict(name=name, kind='closed', verdict='sat', backend='closed-eval', replayed=True, witness=r['bad'][0], detail=f'{r["bad"][:4]}')]
+    return [dict(name=name, kind='closed', verdict='unsat', backend='closed-eval', count=r['checked'],
+                 detail=f'{r["checked"]} wiring facts: English and Chinese IP configurations, BaseIpExtractor pattern order, GUID extractor')]
+
+
+sequence_config_wiring.props = ['C13']
+CLOSED.append(sequence_config_wiring)
